@@ -51,6 +51,17 @@ def cmd_replay(path):
         for c in getattr(mod, "CONTRACTS", []):
             for k in c.cases:
                 if k.target == target and k.name == case_name:
+                    if k.replay == "model" or str(entry.get("backend", "")).startswith("sampling"):
+                        # the counter-model lives in the solver (function interpretations, sequence contents): the case is run again on the current tree
+                        # and the same obligation, if refuted again, is replayed on real objects built from the new counter-model
+                        res = core.run_case(c, k, tier="quick", known=[], seed=int(os.environ.get("VERIF_SEED", "0") or 0))
+                        again = [o for o in res.obligations if o["name"] == name and o.get("verdict") == "refuted"]
+                        if not again:
+                            print(json.dumps(dict(reproduced=False, note="the obligation is not refuted on the current tree"), indent=1))
+                            return 0
+                        r = again[0].get("replay") or dict(reproduced=False)
+                        print(json.dumps(dict(obligation=name, backend=again[0].get("backend"), model=again[0].get("model"), replay=r), indent=1, default=repr))
+                        return 1 if r.get("reproduced") else 0
                     r = core.replay_native(c, k, entry.get("model") or {}, post)
                     print(json.dumps(r, indent=1, default=repr))
                     return 1 if r.get("reproduced") else 0
